@@ -31,7 +31,19 @@ def values(r):
     return list(range(-lim, lim + 1))
 
 
+BIG_INTS = [2 ** 53 + 1, 2 ** 53 - 1, -(2 ** 53 + 1), 3 ** 37, 2 ** 60 + 1, 2 ** 53]
+
+
 def operand_values(kind, r):
+    if SPAN < 0:
+        # numbers beyond the 53-bit mantissa of a double (nothing may pass through a float)
+        if kind == "F":
+            return [v * (1 << r) + d for v in BIG_INTS[:4] for d in (0, 1)]
+        if kind == "B":
+            return [0, 1]
+        if kind == "f":
+            return [1 << r, 3 << r]
+        return list(BIG_INTS)
     if kind == "F" or kind == "f":
         return values(r)                 # representation integers
     if kind == "B":
@@ -271,6 +283,14 @@ def run(ctx):
                             continue
                         tasks.append((op, ka, kb, r, n, p, span))
             tasks.append(("unary", r, n, p, span))
+    # big operands: default resolution 8 (and 2), bitlength 90, integers around and above 2^53
+    for r in (8, 2) if not ctx.thorough else (8, 2, 16):
+        p = REC.BN128
+        for op in BIN + ASSERTS:
+            for ka, kb in (("F", "i"), ("i", "F"), ("F", "F"), ("F", "S"), ("S", "F")):
+                if op in ASSERTS and ka != "F":
+                    continue
+                tasks.append((op, ka, kb, r, 90, p, -1))
     random.Random(ctx.seed).shuffle(tasks)
     results = common.pool_map(_dispatch, tasks, init=_init)
     agg, nout = {}, 0
@@ -289,7 +309,7 @@ def run(ctx):
     ctx.cov["exhaustive"] = True
     ctx.cov["rule"] = ("13 binary operators + 6 assertions x ordered operand-kind pairs over {fixed-point secret, integer "
                        "secret, boolean secret, int, float} with at least one fixed-point operand x ALL multiples of 2^-r in "
-                       "[-2-2^-r, 2+2^-r] (integers -3..3) x resolutions x bitlengths; result representation compared with "
+                       "[-2-2^-r, 2+2^-r] (integers -3..3) x resolutions x bitlengths, and operands around and above 2^53 at resolution 8 / 2 with bitlength 90; result representation compared with "
                        "exact Fraction arithmetic (floor(a*b/2^r), floor(a*2^r/b), Python // and % on the represented "
                        "numbers, order for comparisons), raising always accepted; unary: neg, pos, val(), constructors, "
                        "assert_range, x ** k for k = 0..3; states = distinct observed outcomes per task summed")
